@@ -25,7 +25,15 @@ LEVEL_TEXT = ("Coq theorems: over R, Haldane and Kosambi map 0 to 0, [0,inf) int
               "on first use describes its own markers (every query); after remove_discrepancies/select/remove the reduced map is well-formed "
               "and interpolation is at once exact at the remaining markers, on the chord between consecutive remaining markers and "
               "order-preserving once congruent (every well-formed map keeping two markers per chromosome); two regression witnesses about "
-              "the former code (old_interp_gmap copied stale group metadata; old_rd_interp_pos kept the old spline), both defects repaired. "
+              "the former code (old_interp_gmap copied stale group metadata; old_rd_interp_pos kept the old spline), both defects repaired; "
+              "after ANY selection of markers (select/remove/prune) keeping two per chromosome the map is well-formed and interpolation is exact "
+              "at the remaining markers and on their chords; interpolation is covariant under scaling of the genetic positions and invariant "
+              "under a common translation of physical positions and query; sequential distances of a window of a query are those of the sliced "
+              "query. The kernel expressions and call shapes on which these theorems turn (bodies of mapfn/invmapfn, 0.01 factor, default sort keys, "
+              "group metadata, congruence comparison, spline mask/knots/assume_sorted, KeyError -> NaN, operand order of the sequential "
+              "difference, |gi-gj| and the inf mask, row/column slice bounds, call shapes of gdist1p/gdist2p/rprob*/interp_xoprob) are regenerated "
+              "from the source of both map classes on every run (Gen/C11_Kernel.v), proved equal to the model (Proofs/C11_Kernel.v) and the laws "
+              "are restated about the generated definitions. "
               "The model is tied to the code by evaluating it inside Coq on generated maps/queries "
               "against the implementation's outputs: exact rationals on dyadic grids, bit-for-bit binary64 (PrimFloat model of "
               "scipy's interp1d arithmetic) everywhere, and Coq-Interval enclosures (proved sound) within 2^-45 for map-function values")
@@ -33,7 +41,10 @@ LEVEL_NOTE = ("trusted: Coq kernel + vm_compute, PrimFloat primitives, classical
               "scipy.interpolate.interp1d._call_linear is modelled (searchsorted-left, clip(1,n-1), barycentric form) and compared bit for bit, "
               "its internal mergesort of already sorted knots is taken as the identity; numpy exp/log/tanh/arctanh compared within 2^-45 "
               "of the real function; gdist1g is modelled on chromosome-sorted input (its documented precondition); "
-              "theorems are about the Gallina model, the tie to the code is differential on generated inputs")
+              "theorems are about the Gallina model; the tie to the code is (a) the kernel translator harness/translate/c11_kernel.py (trusted, "
+              "fail closed: expressions located by function and selector, statement shapes checked structurally) and (b) differential on "
+              "generated inputs; text round trips (csv/egmap) are compared within a few ulp (pandas' float parser), prune() only as a "
+              "selection of markers (which markers it keeps is not specified by the property)")
 TECHNIQUE = "Coq proof (reals + exact rationals) over an executable model; in-Coq vm_compute correspondence (exact, PrimFloat bit-exact, Interval enclosures)"
 RULE = ("case kinds: mapfn (a vector of distances incl. 0, denormals, grid points, large values, +inf and a vector of probabilities incl. 0 and "
         "values next to 1/2, for one map function), gmap (class Standard|Extended, units M|cM, 1-4 chromosomes with 2-6 markers each, "
@@ -42,10 +53,17 @@ RULE = ("case kinds: mapfn (a vector of distances incl. 0, denormals, grid point
         "methods, genotype matrix unphased|phased with Haldane|Kosambi; every map is also built from a second shuffle and with auto_group=False), "
         "igmap (interp_gmap result re-used as a map: dump before and after its first use, congruence, interpolation), rmdisc (non-congruent "
         "grid map reduced by remove_discrepancies and, separately, by remove(flagged indices); queried at removed markers, at and between "
-        "remaining markers, outside and on an absent chromosome, right after the reduction and after build_spline); non-trivial = "
+        "remaining markers, outside and on an absent chromosome, right after the reduction and after build_spline), select (grid map reduced by "
+        "select(index array | mask), remove(index array | slice) or ExtendedGeneticMap.prune(nt | M | both); an earlier deep copy must not follow), "
+        "wide (130-300 markers per chromosome, labels beyond int8/int16, a discordant marker and a removal beyond index 255), audit (introspection "
+        "of the anchored modules against the ENTRY_POINTS / SKIPPED tables); every gmap case also obtains its map through the library's own "
+        "routes (DataFrame / csv / egmap round trips with default and custom columns, property setters, ungroup+group, reorder, sort, select-all, "
+        "remove-none on copies) and probes aliasing (in-place writes into results, into copies' arrays and spline dictionaries and into the map "
+        "returned by interp_gmap must not reach the map); grid maps carry genetic scales 2^-40..2^10 and physical offsets up to 2^40; non-trivial = "
         "gmap with >= 2 chromosomes, a query marker strictly between two knots, one outside the knot range and one on an absent "
         "chromosome, or mapfn with >= 6 finite distances; distinct by SHA-256 of the case")
-TRUSTED = ["scipy interp1d(kind='linear', fill_value='extrapolate') evaluates _call_linear as modelled (compared bit for bit on every case)",
+TRUSTED = ["harness/translate/c11_kernel.py + translate/pyexpr.py + kernelkit.py (kernel translator, fail closed)",
+           "scipy interp1d(kind='linear', fill_value='extrapolate') evaluates _call_linear as modelled (compared bit for bit on every case)",
            "numpy.lexsort is a stable lexicographic sort; numpy.unique on a sorted array yields the runs",
            "numpy exp/log/tanh/arctanh are within 2^-45 (absolute, resp. relative to 1+|d|) of the real functions on the generated points",
            "Python's own float arithmetic (IEEE-754 binary64) is used by the independent predicate as oracle"]
@@ -237,10 +255,11 @@ def _gen_map(rng, grid):
     nchr = rng.choice([1, 2, 2, 3, 3, 4])
     labels = rng.sample(range(-2, 12), nchr)
     congruent = rng.random() < 0.7
-    # scales (grid maps stay exact: dyadic positions, power-of-two knot gaps): genetic positions from 2^-40 to 2^+20 times the
-    # unit grid (large ones only on congruent maps: a negative gap of 2^20 Morgans overflows exp()), physical positions offset
-    # up to 2^40 (the interpolation weights are differences of physical positions)
-    gscale = Fraction(2) ** rng.choice([0, 0, 0, 0, -8, -20, -40] + ([10, 20] if congruent else []))
+    # scales (grid maps stay exact: dyadic positions, power-of-two knot gaps): genetic positions from 2^-40 to 2^+10 times the
+    # unit grid (large ones only on congruent maps: a large negative gap overflows exp(); not beyond 2^10 because the verified
+    # interval evaluation of exp(-2d) costs time linear in d), physical positions offset up to 2^40 (the interpolation weights
+    # are differences of physical positions)
+    gscale = Fraction(2) ** rng.choice([0, 0, 0, 0, -8, -20, -40] + ([4, 10] if congruent else []))
     poff = rng.choice([0, 0, 0, 2 ** 20, 2 ** 31, 2 ** 40])
     rows = []
     for c in labels:
@@ -259,7 +278,7 @@ def _gen_map(rng, grid):
         for x, g in zip(pos, gens):
             rows.append([c, x, float(g)])
     rng.shuffle(rows)
-    return rows, labels, congruent
+    return rows, labels, congruent and (gscale <= 1 or not grid)
 
 def _gen_query(rng, rows, labels, nq, far=True):
     steps = [1, 2, 4, 16, 37] if far else [1, 2, 4]      # steep non-congruent chords far outside overflow exp()
@@ -393,6 +412,35 @@ def _select_case(rng, cls=None, op=None):
     case["query"] = q[:8] + [[rows[0][0], rows[0][1] - 3], [rows[-1][0], rows[-1][1] + 5], [rng.choice(absent), 7]]
     return case
 
+def _wide_case(rng, cls=None):
+    """more markers on a chromosome and more chromosomes than a narrow integer type can count (> 127, > 255 markers; labels beyond
+    int8 / int16), so that group metadata, run boundaries, indices and labels kept in a narrow type would wrap"""
+    cls = cls or rng.choice(["std", "ext"])
+    labels = rng.sample([-3, 5, 120, 130, 250, 300, 40000, 70000], rng.choice([1, 2, 2]))
+    sizes = [rng.choice([260, 300])] if len(labels) == 1 else [130, rng.choice([129, 140])]     # elaboration time of the shard grows faster than n
+    rows = []
+    for c, k in zip(labels, sizes):
+        pos = [rng.randrange(0, 64)]
+        while len(pos) < k: pos.append(pos[-1] + 2 ** rng.randrange(0, 4))
+        g = Fraction(rng.randrange(0, 64), 256); gens = []
+        for _ in range(k):
+            gens.append(g); g += Fraction(rng.choice([0, 1, 1, 2, 5]), 256)
+        if rng.random() < 0.4:                       # one discordant marker far into the chromosome
+            i = rng.randrange(k - 20, k - 1); gens[i] = gens[i - 3] - Fraction(1, 512)
+        rows += [[c, x, fx(float(v))] for x, v in zip(pos, gens)]
+    rng.shuffle(rows)
+    n = len(rows)
+    srt = sorted(rows, key=lambda r: (r[0], r[1]))
+    q = []
+    for i in (0, 126, 127, 128, 254, 255, 256, n - 2):
+        if i + 1 < n and srt[i][0] == srt[i + 1][0]: q.append([srt[i][0], (srt[i][1] + srt[i + 1][1] + 1) // 2])
+    q.append([srt[-1][0], srt[-1][1] + 3]); q.append([7, 5])
+    case = {"kind": "wide", "cls": cls, "units": "M", "grid": True, "rows": rows, "query": q, "win": [max(0, n - 6), None, 250, 259],
+            "drop": rng.randrange(n - 30, n - 2)}
+    if cls == "ext":
+        case["stop"] = [r[1] + 1 for r in rows]; case["name"] = None; case["fncode"] = None
+    return case
+
 def gen_cases(rng, tier):
     cases = [{"kind": "audit"}]
     nm, ng, ni = (30, 170, 6) if tier == "quick" else (400, 3000, 40)
@@ -411,6 +459,7 @@ def gen_cases(rng, tier):
     for i, op in enumerate(["select_idx", "select_mask", "remove_idx", "remove_slice"] * 2 + ["prune"] * (4 if tier == "quick" else 40)):
         cases.append(_select_case(rng, "ext" if op == "prune" else ("std", "ext")[(i // 4) % 2], op))
     for i in range(ni): cases.append(_select_case(rng))
+    for i in range(2 if tier == "quick" else 12): cases.append(_wide_case(rng, ("std", "ext")[i % 2]))
     return cases
 
 # ----------------------------------------------------------------------------------------------- implementation driver
@@ -450,6 +499,7 @@ def run_impl(case):
     if case["kind"] == "igmap": return _run_igmap(case)
     if case["kind"] == "rmdisc": return _run_rmdisc(case)
     if case["kind"] == "select": return _run_select(case)
+    if case["kind"] == "wide": return _run_wide(case)
     return _run_gmap(case)
 
 def _fnobj(name):
@@ -632,6 +682,7 @@ def _alias_probe(g, cls, qc, qp):
         for a in (c.vrnt_chrgrp_name, c.vrnt_chrgrp_stix, c.vrnt_chrgrp_spix, c.vrnt_chrgrp_len):
             if a is not None: a[...] = 0
         if cls == "ext": c.vrnt_stop[...] = 0
+        c.spline.clear()                                  # a copy owns its spline dictionary
         c.build_spline()
     m = g.interp_gmap(qc.copy(), qp.copy()) if cls == "std" else g.interp_gmap(qc.copy(), qp.copy(), qp + 1)
     m.vrnt_genpos[...] = 3.0
@@ -700,6 +751,26 @@ def _run_rmdisc(case):
         d = _dump(g, cls)
         out["ungrouped"] = {"grouped": d["grouped"], "rows": [list(t) for t in zip(d["chr"], d["phy"], d["gen"])],
                             "direct": fxl(g.interp_genpos(qc, qp))}
+    return out
+
+def _run_wide(case):
+    cls = case["cls"]
+    g, unch = _mk_map(cls, case["rows"], case["units"], case.get("stop"))
+    qc = numpy.array([q[0] for q in case["query"]], dtype="int64"); qp = numpy.array([q[1] for q in case["query"]], dtype="int64")
+    out = {"map": _dump(g, cls), "inputs_unchanged": unch}
+    w = case["win"]
+    with warnings.catch_warnings(record=True) as ws:
+        warnings.simplefilter("always")
+        out["congruence"] = [bool(b) for b in g.congruence()]; out["is_congruent"] = bool(g.is_congruent())
+        out["q_gen"] = fxl(g.interp_genpos(qc, qp))
+        out["warned"] = any("congruent" in str(x.message) for x in ws)
+    with warnings.catch_warnings():
+        warnings.simplefilter("ignore")
+        out["own"] = fxl(g.interp_genpos(g.vrnt_chrgrp, g.vrnt_phypos))
+        out["g1"] = fxl(g.gdist1g(g.vrnt_chrgrp, g.vrnt_genpos))
+        out["g2w"] = fxll(g.gdist2g(g.vrnt_chrgrp, g.vrnt_genpos, *w))
+        c = copy.deepcopy(g); c.remove(case["drop"])
+        out["dropped"] = {"map": _dump(c, cls), "q_gen": fxl(c.interp_genpos(qc, qp))}
     return out
 
 def _run_select(case):
@@ -788,6 +859,19 @@ def emit_case(case, out):
         return "(check_select false %s %s %s %s %s %s\n   && extl_close %s %s)" % (
             _raw(case, sorted(range(len(case["rows"])), key=lambda i: (case["rows"][i][0], case["rows"][i][1]))), E.lst(out["mask"], E.b),
             _pairs(case["query"]), t1, E.b(out["is_congruent"]), E.lst(out["direct"], _ext), E.lst(out["rebuilt"], _ext), E.lst(out["direct"], _ext))
+    if case["kind"] == "wide":
+        # big literals are slow to elaborate: every float array is shipped once (binary64) and converted inside Coq
+        d = out["map"]; w = case["win"]; n = len(case["rows"])
+        pay = [[d["stop"][i], -1, -1] for i in range(n)] if case["cls"] == "ext" else [[] for _ in range(n)]
+        meta = "(%s, %s, %s, %s)" % tuple(E.lst(mm if mm is not None else [], E.z) for mm in d["meta"])
+        return ("(let raw : raw_t := %s in\n   let gf : list float := %s in\n   let g1f : list float := %s in\n   let g2f : list (list float) := %s in\n   let qf : list float := %s in"
+                "\n   check_build false raw (%s, %s, map q_of_float gf, %s, %s) gf\n   && check_congr false raw %s %s %s"
+                "\n   && check_interp true false raw %s (map q_of_float qf) qf gf"
+                "\n   && check_gdist_g true false raw None None %s %s %s %s (map q_of_float g1f) g1f (map (map q_of_float) g2f) g2f && %s)") % (
+            _raw(case), E.lst(d["gen"], _fl), E.lst(out["g1"], _fl), E.lst2(out["g2w"], _fl), E.lst(out["q_gen"], _fl),
+            E.lst(d["chr"], E.z), E.lst(d["phy"], E.z), E.lst2(pay, E.z), meta,
+            E.lst(out["congruence"], E.b), E.b(out["is_congruent"]), E.b(out["warned"]), _pairs(case["query"]),
+            _oz(w[0]), _oz(w[1]), _oz(w[2]), _oz(w[3]), E.b(out["inputs_unchanged"] and out["own"] == d["gen"]))
     if case["kind"] == "mapfn":
         k = _kind(case["fn"])
         return "(check_mapfn %s %s %s %s %s %s %s\n   && fl_eqb (map cM2d_f %s) %s && extll_eqb [%s] %s)" % (
@@ -1187,6 +1271,42 @@ def _pred_rmdisc(case, out):
     if out["via_remove"] != {k: v for k, v in out.items() if k not in ("via_remove", "ungrouped")}: bad.append("remove(flagged markers) and remove_discrepancies() leave different maps / splines")
     return bad
 
+def _rows_congruent(d):
+    g = [xf(v) for v in d["gen"]]
+    return all(d["chr"][i - 1] != d["chr"][i] or g[i - 1] <= g[i] for i in range(1, len(g)))
+
+def _pred_wide(case, out):
+    bad = []
+    rows = sorted((c, x, xf(g)) for c, x, g in case["rows"])
+    n = len(rows); m = out["map"]
+    if list(zip(m["chr"], m["phy"], [xf(v) for v in m["gen"]])) != rows: bad.append("constructor: stored rows are not the input rows sorted by (chromosome, physical, genetic)")
+    if not m["grouped"] or not _own_meta(m) or m["nvrnt"] != n or m["len"] != n: bad.append("constructor: group metadata / length does not describe the %d sorted rows" % n)
+    if not out["inputs_unchanged"]: bad.append("constructor mutated its input arrays")
+    cg = [True if i == 0 or rows[i - 1][0] != rows[i][0] else rows[i - 1][2] <= rows[i][2] for i in range(n)]
+    if out["congruence"] != cg or out["is_congruent"] != all(cg) or out["warned"] != (not all(cg)): bad.append("congruence() flags / is_congruent() / warning")
+    knots = {}
+    for c, x, g in rows: knots.setdefault(c, []).append((x, Fraction(g)))
+    def chk(label, kn, vals):
+        for (c, x), v in zip(case["query"], vals):
+            v = xf(v)
+            if c not in kn:
+                if not math.isnan(v): bad.append("%s: chromosome %d is absent from the map but the position is %r" % (label, c, v))
+            elif math.isnan(v) or Fraction(v) != _interp_exact(kn[c], x):
+                bad.append("%s: position of (%d,%d) = %r, linear interpolation between the flanking markers gives %r" % (label, c, x, v, float(_interp_exact(kn[c], x)))); break
+    chk("interp_genpos", knots, out["q_gen"])
+    if [xf(v) for v in out["own"]] != [t[2] for t in rows]: bad.append("interpolation at the map's own markers does not return their stored positions")
+    g1 = [xf(v) for v in out["g1"]]
+    if g1 != [math.inf if i == 0 or rows[i - 1][0] != rows[i][0] else rows[i][2] - rows[i - 1][2] for i in range(n)]: bad.append("gdist1g != first differences inside chromosomes, inf at chromosome starts")
+    w = case["win"]
+    want = [[(abs(a[2] - b[2]) if a[0] == b[0] else math.inf) for b in rows[slice(w[2], w[3])]] for a in rows[slice(w[0], w[1])]]
+    if [[xf(v) for v in r] for r in out["g2w"]] != want: bad.append("gdist2g window %r" % (w,))
+    d = out["dropped"]["map"]; rest = rows[:case["drop"]] + rows[case["drop"] + 1:]
+    if list(zip(d["chr"], d["phy"], [xf(v) for v in d["gen"]])) != rest or not _own_meta(d): bad.append("remove(%d): the reduced map is not the map without that marker" % case["drop"])
+    kn2 = {}
+    for c, x, g in rest: kn2.setdefault(c, []).append((x, Fraction(g)))
+    chk("interp_genpos after remove(%d)" % case["drop"], kn2, out["dropped"]["q_gen"])
+    return bad
+
 def _pred_select(case, out):
     """select / remove / prune keep a subset of the markers: what is kept is what was asked for, the reduced map is sorted and
     grouped with metadata of its own, interpolation follows the remaining markers at once (no stale spline), is exact at them,
@@ -1237,7 +1357,7 @@ def pred(case, out):
     """the property, stated directly on the implementation's outputs (independent of the Coq model)"""
     if "exc" in out:
         return ["implementation raised %s: %s" % (out["exc"], out["msg"])]
-    bad = {"mapfn": _pred_mapfn, "gmap": _pred_gmap, "igmap": _pred_igmap, "rmdisc": _pred_rmdisc, "select": _pred_select, "audit": _pred_audit}[case["kind"]](case, out)
+    bad = {"mapfn": _pred_mapfn, "gmap": _pred_gmap, "igmap": _pred_igmap, "rmdisc": _pred_rmdisc, "select": _pred_select, "audit": _pred_audit, "wide": _pred_wide}[case["kind"]](case, out)
     seen = []
     for b in bad:
         if b not in seen: seen.append(b)
@@ -1259,6 +1379,7 @@ def describe(case, out):
     if case["kind"] == "mapfn": return {"kind": "mapfn", "fn": case["fn"], "npoints": len(case["d"]) + len(case["r"]), "raised": "exc" in out}
     if case["kind"] == "audit": return {"kind": "audit", "entry_points": out.get("count")}
     if case["kind"] in ("igmap", "rmdisc"): return {"kind": case["kind"], "cls": case["cls"], "raised": "exc" in out}
+    if case["kind"] == "wide": return {"kind": "wide", "cls": case["cls"], "nmarkers": len(case["rows"]), "nchr": len(set(r[0] for r in case["rows"])), "raised": "exc" in out}
     if case["kind"] == "select": return {"kind": "select", "cls": case["cls"], "op": case["op"], "raised": "exc" in out}
     knots = set(r[0] for r in case["rows"])
     return {"kind": "gmap", "cls": case["cls"], "units": case["units"], "grid": case["grid"], "nchr": len(knots),
